@@ -39,6 +39,8 @@ INPUTS = [
     "x \"quoted <&> text\" y",
     "\n".join("+--+ .-. %d" % i + "\n|  |( a )\n+--+ `-'" for i in range(60)),
     "  /\\\n /  \\\n/____\\\n\\    /\n \\  /",
+    # about 13 KiB of box-drawing and CJK text: multi-byte characters lie across every 4096-byte boundary
+    "\n".join("┌──┐ 一二三四五 %03d é\n│  │\n└──┘" % i for i in range(230)),
 ]
 
 
@@ -154,7 +156,39 @@ def conversion_case(case, ref):
         shutil.rmtree(d, ignore_errors=True)
 
 
+def stdout_failure_case(case):
+    """standard output cannot be written (a full disk): the run must fail with a diagnostic"""
+    text = INPUTS[1]
+    d = tempfile.mkdtemp(prefix="c19-")
+    try:
+        argv = []
+        stdin = None
+        if case["in_mode"] == "file":
+            p = os.path.join(d, "in.bob")
+            open(p, "w").write(text)
+            argv = [p]
+        elif case["in_mode"] == "stdin":
+            stdin = text.encode()
+        else:
+            argv = ["-s", text.replace("\n", "\\n")]
+        try:
+            with open("/dev/full", "wb") as full:
+                r = subprocess.run([CLI] + argv, input=stdin if stdin is not None else b"", stdout=full, stderr=subprocess.PIPE, timeout=60)
+        except OSError:
+            return None
+        errs = []
+        if r.returncode == 0:
+            errs.append("exit status 0 although the document could not be written to standard output")
+        if not r.stderr:
+            errs.append("no diagnostic although the document could not be written to standard output")
+        return errs
+    finally:
+        shutil.rmtree(d, ignore_errors=True)
+
+
 def error_case(case):
+    if case["kind"] == "stdout-full":
+        return stdout_failure_case(case)
     kind, in_mode = case["kind"], case["in_mode"]
     d = tempfile.mkdtemp(prefix="c19-")
     try:
@@ -312,6 +346,8 @@ def enumerate_cases(tier):
             for (om, pre) in out_states:
                 for im in in_modes:
                     for s in (subsets[0], subsets[-1]):
+                        if inp == 7 and (s or im == "inline"):
+                            continue
                         conv.append(dict(subset=s, which=0, out_mode=om, pre=pre, in_mode=im, input=inp))
     else:
         for s in subsets:
@@ -333,6 +369,8 @@ def enumerate_cases(tier):
         errs.append(dict(kind="out-missing-dir", in_mode=im))
         errs.append(dict(kind="out-is-dir", in_mode=im))
     errs = errs + [dict(e, with_o=True) for e in errs if not e["kind"].startswith("out-")]
+    if os.path.exists("/dev/full"):
+        errs = errs + [dict(kind="stdout-full", in_mode=im) for im in in_modes]
     builds = []
     names = list(BUILD_FILES)
     maxfiles = 3 if tier == "quick" else 4
